@@ -273,8 +273,77 @@ func propC04(g *G, w *CaseW, rep *Report, thorough bool) {
 		rep.count(fmt.Sprintf("history-ops:%d", len(c.Ops)))
 		oracleSafe(rep, c, res)
 	}
+	// a finished object called again without Reset (the documented "called again after finishing"
+	// path of every value parser): same buffer, the returned or another offset
+	for i := 0; i < scale(thorough, 800, 8000); i++ {
+		kind := allKinds[i%len(allKinds)]
+		c := genAgain(g, kind)
+		if c == nil {
+			continue
+		}
+		if kind == kMsg {
+			// a finished message called again answers ErrHdrBug at the offset given; its RawMsg then
+			// still points into the previous buffer (no offset into the new one): oracle only
+			msgAgain(rep, c)
+			continue
+		}
+		out, res := runCase(c)
+		w.emitCase(c, out)
+		rep.Cases++
+		rep.count("again-after-finish")
+		oracleSafe(rep, c, res)
+		// the second call must not move backwards nor leave the buffer
+		if len(res) == 2 && res[1].Panic == "" && len(res[1].Calls) > 0 {
+			last := res[1].Calls[len(res[1].Calls)-1]
+			rep.OracleEval++
+			if last.O > len(c.Ops[1].Buf) || (last.E == 0 && last.O < c.Ops[1].Offs) {
+				rep.violate("a finished object called again returned an offset outside the buffer or before its start offset",
+					"again-offset", map[string]interface{}{"case": json.RawMessage(caseJSON(c))})
+			}
+		}
+	}
 	safeEntries(g, w, rep, thorough)
 	isolation(g, rep, thorough)
+}
+
+// one complete parse, then - only if it finished with ErrHdrOk - a second call on the same
+// object and buffer without Reset
+func genAgain(g *G, kind int) *Case {
+	in := Input{Kind: kind}
+	g.paramsFor(&in)
+	if kind == kMsg {
+		in.Flags = uint(g.n(8))
+	} else if kind == kTokParam {
+		in.Flags = tpFlagSets[g.n(len(tpFlagSets))]
+	}
+	pre := ""
+	if g.p(40) {
+		pre = g.hostile(1 + g.n(20))
+	}
+	in.Buf = g.textFor(&in)
+	var cuts []int
+	if g.p(30) {
+		cuts = g.cutsFor(len(pre), pre+in.Buf)
+	}
+	buf := []byte(pre + in.Buf)
+	c := &Case{Kind: kind, A: in.A, B: in.B, C: in.C}
+	c.Ops = append(c.Ops, Op{Flags: in.Flags, Buf: buf, Offs: len(pre), Cuts: cuts})
+	_, res := runCase(c)
+	if len(res) != 1 || res[0].Panic != "" || len(res[0].Calls) == 0 {
+		return nil
+	}
+	last := res[0].Calls[len(res[0].Calls)-1]
+	if last.E != 0 {
+		return nil
+	}
+	// the calling convention of the list parsers: a further header value starts at or after the
+	// end of the previous one
+	offs := last.O
+	if g.p(30) && last.O <= len(buf) {
+		offs = last.O + g.n(len(buf)-last.O+1)
+	}
+	c.Ops = append(c.Ops, Op{Flags: in.Flags, Buf: buf, Offs: offs})
+	return c
 }
 
 // a history of (complete | mutated | abandoned) parses, each followed by a Reset, then a probe
@@ -623,5 +692,32 @@ func propC13(g *G, w *CaseW, rep *Report, thorough bool) {
 		if i < 3 {
 			rep.sample(json.RawMessage(caseJSON(ca)))
 		}
+	}
+}
+
+func msgAgain(rep *Report, c *Case) {
+	var obj Obj
+	if p := safeCall(func() { obj = newObj(c.Kind, c.A, c.B, c.C) }); p != "" {
+		return
+	}
+	r := runOp(obj, &c.Ops[0])
+	if r.Panic != "" {
+		return
+	}
+	op := &c.Ops[1]
+	var o int
+	var e sipsp.ErrorHdr
+	p := safeCall(func() { o, e = obj.Parse(op.Flags, exact(op.Buf, len(op.Buf)), op.Offs) })
+	rep.Cases++
+	rep.OracleEval++
+	rep.count("again-after-finish:message")
+	if p != "" {
+		rep.violate("ParseSIPMsg on a finished message: panic: "+p, "panic:ParseSIPMsg-again",
+			map[string]interface{}{"case": json.RawMessage(caseJSON(c))})
+		return
+	}
+	if o != op.Offs || e != sipsp.ErrHdrBug {
+		rep.violate(fmt.Sprintf("ParseSIPMsg on a finished message returned (%d, %d), not (offs, ErrHdrBug)", o, e), "again-msg",
+			map[string]interface{}{"case": json.RawMessage(caseJSON(c))})
 	}
 }
